@@ -329,11 +329,23 @@ int chooseAfterBlock( int me)
    return lowestOther( me);
 }
 
+// debugging aid: SIM_DEBUG_POINTS=<thread id> prints kind and caller of every
+// point of that thread to stderr (never set by the driver)
+int  g_debug_thread = -2;
+
 void point( int kind, int child = -1)
 {
    const int  me = tl_id;
    if (me < 0 || !g.active.load( std::memory_order_relaxed))
       return;
+   if (g_debug_thread == -2)
+   {
+      const char*  e = getenv( "SIM_DEBUG_POINTS");
+      g_debug_thread = e ? atoi( e) : -1;
+   }
+   if (g_debug_thread == me)
+      fprintf( stderr, "POINT T%d #%llu kind=%d pc=%p pc2=%p\n", me, static_cast< unsigned long long>( g.t[ me].points + 1), kind,
+               __builtin_return_address( 0), __builtin_return_address( 1));
    SimThread&  t = g.t[ me];
    ++t.points;
    ++g.st.points;
@@ -617,6 +629,8 @@ extern "C" int pthread_mutex_lock( pthread_mutex_t* m)
       r = findMutex( m, true);
       if (r == nullptr)
          fatal( "INFRA", "mutex table full");
+      if (r->owner == me && (m->__data.__kind & 3) != PTHREAD_MUTEX_RECURSIVE_NP)
+         fatal( "DEADLOCK", "a thread locks a non-recursive mutex that it already holds");
       if (r->owner < 0 || r->owner == me)
          break;
       ++g.st.blocked_lock;
@@ -678,6 +692,175 @@ extern "C" int pthread_mutex_unlock( pthread_mutex_t* m)
    }
    point( pkUnlock);
    return rc;
+}
+
+// ----- one-time initialisation: pthread_once (std::call_once) and the guards
+// of function-local statics. The real implementations block in the kernel
+// while another thread runs the initialiser; under this scheduler that thread
+// may be parked, so the waiting has to happen here. ThreadSanitizer's own
+// guard functions are replaced (the link of the tsan flavour allows multiple
+// definitions, this object comes first); the happens-before edge they model
+// is kept with __tsan_release / __tsan_acquire.
+
+extern "C" {
+void __tsan_acquire( void* addr) __attribute__(( weak));
+void __tsan_release( void* addr) __attribute__(( weak));
+}
+
+namespace {
+
+/// waits until nobody initialises the object at `what` any more
+void waitForInit( void* what)
+{
+   const int  me = tl_id;
+   if (me >= 0 && g.active.load())
+   {
+      ++g.st.blocked_lock;
+      g.t[ me].state = stBlockedMutex;
+      g.t[ me].wait_mutex = what;
+      blockCurrent( me, pkBlock);
+   } else
+      syscall( SYS_sched_yield);
+}
+
+void wakeInitWaiters( void* what)
+{
+   if (!g.active.load())
+      return;
+   for (int k = 0; k < g.nthreads; ++k)
+      if (g.t[ k].state == stBlockedMutex && g.t[ k].wait_mutex == what)
+      {
+         g.t[ k].state = stRunnable;
+         g.t[ k].wait_mutex = nullptr;
+         g.prio_dirty = true;
+      }
+}
+
+} // namespace
+
+// The guard functions are reached through the linker's --wrap: references in
+// the objects of the harness and of the library go to __wrap_*, the runtime's
+// own implementation (ThreadSanitizer's, which also models the happens-before
+// edge) stays available as __real_*. Here only the waiting is taken over: a
+// thread never enters the real function while another simulated thread is
+// inside the initialiser of the same object.
+
+extern "C" {
+int __real___cxa_guard_acquire( uint64_t* guard);
+void __real___cxa_guard_release( uint64_t* guard);
+void __real___cxa_guard_abort( uint64_t* guard);
+}
+
+namespace {
+
+constexpr int  kMaxGuards = 64;
+struct GuardRec { void* g = nullptr; int owner = -1; }  g_guards[ kMaxGuards];
+
+GuardRec* findGuard( void* guard, bool create)
+{
+   GuardRec*  free_slot = nullptr;
+   for (auto & r : g_guards)
+   {
+      if (r.g == guard) return &r;
+      if (r.g == nullptr && free_slot == nullptr) free_slot = &r;
+   }
+   if (create && free_slot != nullptr)
+   {
+      free_slot->g = guard;
+      free_slot->owner = -1;
+   }
+   return create ? free_slot : nullptr;
+}
+
+} // namespace
+
+extern "C" int __wrap___cxa_guard_acquire( uint64_t* guard)
+{
+   const int  me = tl_id;
+   if (me < 0 || !g.active.load())
+      return __real___cxa_guard_acquire( guard);
+   point( pkLock);
+   for (;;)
+   {
+      GuardRec*  r = findGuard( guard, false);
+      if (r == nullptr || r->owner < 0 || r->owner == me)
+         break;
+      waitForInit( guard);
+   }
+   const int  rc = __real___cxa_guard_acquire( guard);
+   if (rc != 0)
+   {
+      GuardRec*  r = findGuard( guard, true);
+      if (r == nullptr)
+         fatal( "INFRA", "guard table full");
+      r->owner = me;
+   }
+   return rc;
+}
+
+extern "C" void __wrap___cxa_guard_release( uint64_t* guard)
+{
+   __real___cxa_guard_release( guard);
+   if (tl_id >= 0 && g.active.load())
+   {
+      if (GuardRec* r = findGuard( guard, false)) { r->g = nullptr; r->owner = -1; }
+      wakeInitWaiters( guard);
+      point( pkUnlock);
+   }
+}
+
+extern "C" void __wrap___cxa_guard_abort( uint64_t* guard)
+{
+   __real___cxa_guard_abort( guard);
+   if (tl_id >= 0 && g.active.load())
+   {
+      if (GuardRec* r = findGuard( guard, false)) { r->g = nullptr; r->owner = -1; }
+      wakeInitWaiters( guard);
+   }
+}
+
+extern "C" int pthread_once( pthread_once_t* once, void (*init)( void))
+{
+   // glibc: 0 = not started, 2 = done; 1 is used here for "in progress"
+   int*  state = reinterpret_cast< int*>( once);
+   point( pkLock);
+   for (;;)
+   {
+      const int  cur = __atomic_load_n( state, __ATOMIC_ACQUIRE);
+      if (cur == 2)
+      {
+         if (__tsan_acquire != nullptr) __tsan_acquire( once);
+         return 0;
+      }
+      int  expected = 0;
+      if (cur == 0 && __atomic_compare_exchange_n( state, &expected, 1, false, __ATOMIC_ACQ_REL, __ATOMIC_ACQUIRE))
+      {
+         // an initialiser that leaves by an exception makes the call "not done":
+         // the next caller runs it again
+         struct Reset
+         {
+            int*   st;
+            void*  what;
+            bool   done;
+            ~Reset()
+            {
+               if (!done)
+               {
+                  __atomic_store_n( st, 0, __ATOMIC_RELEASE);
+                  wakeInitWaiters( what);
+               }
+            }
+         }  reset{ state, once, false};
+         init();
+         reset.done = true;
+         if (__tsan_release != nullptr) __tsan_release( once);
+         __atomic_store_n( state, 2, __ATOMIC_RELEASE);
+         wakeInitWaiters( once);
+         point( pkUnlock);
+         return 0;
+      }
+      waitForInit( once);
+   }
 }
 
 extern "C" int sched_yield( void)
